@@ -365,6 +365,8 @@ def m_enumerate(en, x, start=0):
 def m_reversed(en, x):
     vals = en.iter_values(x)
     if vals is None:
+        if isinstance(x, ListV):
+            return ListV(L.LRev(x.term))
         raise Unsupported("reversed(symbolic-length)")
     return list(reversed(vals))
 
@@ -814,6 +816,13 @@ def d_values(en, d):
 
 def d_pop(en, d, k, *default):
     if is_symbolic(k):
+        if isinstance(k, z3.ExprRef):
+            for kk in list(d):
+                if type(kk) is py_type_of(k) and en.decide(k == lift(kk)):
+                    return d.pop(kk)
+            if default:
+                return default[0]
+            raise PyRaise(KeyError, "key")
         raise Unsupported("dict.pop symbolic")
     if k in d:
         return d.pop(k)
